@@ -826,6 +826,8 @@ fn lenmode_of(f: &Value) -> LenMode {
         "minus1" => LenMode::Minus1,
         "plus1" => LenMode::Plus1,
         "max" => LenMode::Max,
+        "flip_down" => LenMode::FlipDown,
+        "flip_up" => LenMode::FlipUp,
         _ => LenMode::True,
     }
 }
